@@ -6,3 +6,6 @@
 //! not compiled. One file per area.
 
 pub mod ingress;
+pub mod bmp;
+pub mod rib;
+pub mod bgp;
